@@ -44,6 +44,9 @@ CONSTANTS NSlots,      \* agents live in slots 1..NSlots
 VARIABLES lam, ag, fs, nops, act
 vars == <<lam, ag, fs, nops, act>>
 core == <<lam, ag, fs>>
+\* the view used for model checking keeps the operation counter: with several TLC workers a state may be found first on a
+\* longer path, and a view that hides the bounded counter would then cut its successors (incomplete, run-dependent exploration)
+coreN == <<lam, ag, fs, nops>>
 
 Nil  == [nil |-> TRUE]
 Live(x) == x # Nil
